@@ -13,9 +13,23 @@
 //! half time-out), so that the write task casts its stop vote and the vote stays incomplete, then a
 //! lane event that rescinds it. One body in ten (map updates, value sets) is *empty* - valid Recon
 //! for `()`, `None`, `Extant` - and is placed in the lane's history by position (`oracle::Placing`).
+//!
+//! Extension parts (modules `ext`, `items`, `oracle_ext`; generators at the end of `plan`):
+//!  * `runtime-persist/stores`: the agent also requests value and map *store items* with
+//!    `AgentContext::add_store`, during its initialisation or while it runs
+//!    (`AgentRuntimeRequest::AddStore` -> `WriteTaskMessage::Store`), writes through them, and may
+//!    request an item with the other kind than the one its name had before;
+//!  * `runtime-persist/init-faults`: lanes and store items that misbehave in the initialisation
+//!    handshake (never read, never acknowledge, acknowledge late, drop a channel or the promise,
+//!    send garbage; the store refuses `id_for`) with a short `item_init_timeout`;
+//!  * `runtime-persist/no-store`: the same conversations on `run_agent` (no store), on a store
+//!    whose `id_for` answers `NoStoreAvailable`, and on swimos_api's `StoreDisabled`.
 
+mod ext;
+mod items;
 mod lanes;
 mod oracle;
+mod oracle_ext;
 mod plan;
 #[allow(dead_code)]
 mod remote;
@@ -163,6 +177,22 @@ fn main() {
         let n = session.args.budget(25000, 250000);
         session.part("runtime-persist/dynamic", rule, false, n, |_case, rng, out| {
             run_case(rng, out, Focus::Dynamic, generations, max_len, max_probes);
+        });
+        // ---- extensions (coverage gaps 6, 5, 22) ----
+        let rule = "nontrivial = store items wrote through the runtime into the store log, and a restart handed a non-empty stored state back to a store item";
+        let n = session.args.budget(3000, 30000);
+        session.part("runtime-persist/stores", rule, false, n, |_case, rng, out| {
+            ext::run_case_recording(rng, out, ext::Part::Stores, generations, max_len, max_probes);
+        });
+        let rule = "nontrivial = after an incarnation that filled the store, at least one item (lane or store item) misbehaved in its initialisation handshake";
+        let n = session.args.budget(2500, 25000);
+        session.part("runtime-persist/init-faults", rule, false, n, |_case, rng, out| {
+            ext::run_case_recording(rng, out, ext::Part::InitFaults, generations.max(2), max_len, max_probes);
+        });
+        let rule = "nontrivial = without a usable store remotes received frames, the closing view of at least one lane was compared with the lane's state, and the agent was restarted";
+        let n = session.args.budget(2000, 20000);
+        session.part("runtime-persist/no-store", rule, false, n, |_case, rng, out| {
+            ext::run_case_nostore(rng, out, generations, max_len);
         });
     }
     session.finish()
